@@ -205,3 +205,27 @@ Proof.
   rewrite vh, vm, vs, vms. apply Qred_complete.
   unfold Qeq, Qplus, inject_Z. cbn [Qnum Qden]. lia.
 Qed.
+
+(* ---- "conversion to frame-based outputs lands on the intended frame": the time read is the exact rational, so a time
+   that is a whole number of frames at an integer or rational frame rate fn/fd multiplies out to exactly that number *)
+Definition total_ms (k : clock) : Z := (k_h k * 3600 + k_m k * 60 + k_s k) * 1000 + k_ms k.
+Theorem frames_exact k (fn : Z) (fd : positive) n : total_ms k * fn = n * 1000 * Zpos fd ->
+  Qeq (Qmult (clock_seconds k) (Qmake fn fd)) (inject_Z n).
+Proof.
+  intro H. unfold clock_seconds. fold (total_ms k). rewrite Qred_correct.
+  unfold Qeq, Qmult, inject_Z. cbn [Qnum Qden]. rewrite Pos2Z.inj_mul. lia.
+Qed.
+(* the whole path for one timing line of the grammar: the digits printed for two clocks are read back as the clocks'
+   values, for every clock of the grammar (hours 00-99 or 000-999, minutes and seconds 00-99, milliseconds 000-999) *)
+Theorem exact_time_grammar k1 k2 ws1 ws2 tail : wf_clock k1 = true -> wf_clock k2 = true ->
+  ws1 <> [] -> forallb is_space ws1 = true -> ws2 <> [] -> forallb is_space ws2 = true ->
+  exists g, search_tc (print_clock k1 ++ ws1 ++ [45;45;62] ++ ws2 ++ print_clock k2 ++ tail) = Some g /\
+    seconds_of (g_bh g) (g_bm g) (g_bs g) (g_bms g) = clock_seconds k1 /\
+    seconds_of (g_eh g) (g_em g) (g_es g) (g_ems g) = clock_seconds k2 /\
+    Qeq (clock_seconds k1) (Qmake (total_ms k1) 1000) /\ Qeq (clock_seconds k2) (Qmake (total_ms k2) 1000).
+Proof.
+  intros W1 W2 N1 S1 N2 S2. rewrite !print_clock_text.
+  eexists. split; [apply (search_tc_spec _ _ _ _ ws1 ws2 _ _ _ _ tail); auto using clock_digits_print|].
+  cbn [g_bh g_bm g_bs g_bms g_eh g_em g_es g_ems]. rewrite !clock_value by auto.
+  repeat split; unfold clock_seconds; apply Qred_correct.
+Qed.
